@@ -40,3 +40,15 @@ Example C14_nonvacuous :
   usart_send [[7]] [WWB; WWB; WAccept; WWB; WAccept; WAccept] = Val ([0; 1; 7], []) /\
   usart_send [[7]] [WWB; WAccept] = Hang.
 Proof. repeat split; reflexivity. Qed.
+
+(* the extracted checker (an independent statement of what must be on the link) accepts the model's observation of every case, on each link *)
+Require Import RP.Glue.Wire RP.Glue.StreamLink RP.Lemmas.GlueLemmas.
+Theorem C14_checker_accepts_model_can : forall case p encs fl ans cfs,
+  snd_split case = Some (0, p, encs, fl, ans) -> cans_of encs = Some cfs -> ok_C14 case (run_SND case) = [].
+Proof. exact ok_C14_can_accepts_model. Qed.
+Theorem C14_checker_accepts_model_usart : forall case p encs fl ans,
+  snd_split case = Some (1, p, encs, fl, ans) -> ok_C14 case (run_SND case) = [].
+Proof. exact ok_C14_usart_accepts_model. Qed.
+Theorem C14_checker_accepts_model_serial : forall case p encs fl ans,
+  snd_split case = Some (2, p, encs, fl, ans) -> ok_C14 case (run_SND case) = [].
+Proof. exact ok_C14_serial_accepts_model. Qed.
